@@ -143,7 +143,14 @@ STRESS_PKGS = {
                    "internal/dnsforward/zz_verif_C05crash_test.go": "harness/dnsforward/zz_verif_C05crash_test.go",
                    # round 4: static-lease hostnames from the admin API into PTR / A / AAAA answers (real dhcpd
                    # server behind a real started Server, queries through the socket)
-                   "internal/dnsforward/zz_verif_C05lease_test.go": "harness/dnsforward/zz_verif_C05lease_test.go"},
+                   "internal/dnsforward/zz_verif_C05lease_test.go": "harness/dnsforward/zz_verif_C05lease_test.go",
+                   # round 5: hostile admin data with per-operation deadlines, stalls confirmed by a replay in a
+                   # fresh process (I); scripted list server, partial failures, swallowed worker panics (J)
+                   "internal/dnsforward/zz_verif_C05rig_test.go": "harness/dnsforward/zz_verif_C05rig_test.go",
+                   "internal/dnsforward/zz_verif_C05scen_test.go": "harness/dnsforward/zz_verif_C05scen_test.go",
+                   "internal/dnsforward/zz_verif_C05hostile_test.go": "harness/dnsforward/zz_verif_C05hostile_test.go",
+                   "internal/dnsforward/zz_verif_C05deps_test.go": "harness/dnsforward/zz_verif_C05deps_test.go",
+                   "internal/filtering/zz_verif_c05_shim.go": "harness/shims/filtering_verif_c05_shim.go"},
     "dhcpd": {"internal/dhcpd/zz_verif_C05_test.go": "harness/dhcpd/zz_verif_C05_test.go"},
     "home": {"internal/home/zz_verif_C05_test.go": "harness/home/zz_verif_C05_test.go",
              "internal/home/zz_verif_common_test.go": "harness/home/zz_verif_common_test.go"},
@@ -174,7 +181,7 @@ def _stress(ctx, tbl, known, race, millis, seed, pkg="dnsforward"):
     env.update({"VERIF_SEED": str(seed), "VERIF_OUT": outdir, "VERIF_C05_MS": str(millis),
                 "GORACE": "log_path=%s halt_on_error=0" % os.path.join(outdir, "race")})
     env.setdefault("VERIF_C05_REENTRANT", "1" if _reentrant(tbl) else "0")
-    cmd = ["go", "test", "-overlay", ov, "-tags", "verif", "-count=1", "-vet=off", "-run", "^TestVerifC05(Stress|Crash|Lease)$",
+    cmd = ["go", "test", "-overlay", ov, "-tags", "verif", "-count=1", "-vet=off", "-run", "^TestVerifC05(Stress|Crash|Lease|Hostile)$",
            "-timeout", "%ds" % (millis // 1000 + 240)]
     if race:
         cmd.append("-race")
@@ -188,6 +195,8 @@ def _stress(ctx, tbl, known, race, millis, seed, pkg="dnsforward"):
     if pkg == "dnsforward" and os.path.exists(rp):
         stats["crash_search"] = _crash_search(ctx, outdir, seed, out)
         stats["lease_answers"] = _lease_answers(ctx, outdir, seed, out)
+        stats["hostile_admin_data"] = _hostile_search(ctx, outdir, seed, out)
+        stats["dependency_failures"] = _deps_search(ctx, outdir, seed, out)
     if not os.path.exists(rp):
         # the process died: unrecoverable runtime error (e.g. concurrent map read and map write)
         m = re.search(r"(fatal error: [^\n]*|panic: [^\n]*)", out)
@@ -376,6 +385,113 @@ def _lease_answers(ctx, outdir, seed, out):
     if rep.get("stalled"):
         ctx.fail("property-failure", "stall (static leases against DNS queries): workers did not finish", finding_key="stall", failing_input_found=True,
                  detail={"case": {"id": "lease-stall-%d" % seed, "seed": seed, "desc": {"kind": "stall", "goroutines": rep["stalled"], "admin_requests_before": journal}}})
+    return res
+
+
+def _child_died(ctx, rep, seed, what, ident):
+    """A child of the round-5 searches that died before writing its report: a panic in a goroutine
+    nobody can recover from."""
+    trace = rep.get("trace") or ""
+    m = re.search(r"(fatal error: [^\n]*|panic: [^\n]*)", trace)
+    where = _first_repo_fn(trace)
+    journal = rep.get("journal_tail") or []
+    ctx.fail("property-failure", "server process died %s (exit %s): %s in %s; last operations: %s"
+             % (what, rep.get("child_exit"), m.group(1) if m else "no panic message", where, " ; ".join(journal[-3:])),
+             finding_key="crash:" + where, failing_input_found=True,
+             detail={"case": {"id": "%s-died-%d" % (ident, seed), "seed": seed,
+                              "desc": {"kind": "crash (panic in a goroutine the harness did not start; child process of the search died)",
+                                       "seed": seed, "exit": rep.get("child_exit"), "operations_before": journal, "trace": trace}}})
+
+
+def _child_common(ctx, rep, child, seed, ident, what):
+    journal = rep.get("journal_tail") or []
+    for i, p in enumerate(child.get("panics") or []):
+        where = _first_repo_fn(p)
+        head = p.splitlines()[0]
+        msg = head.rsplit("]: ", 1)[-1] if "]: " in head else head
+        ctx.fail("property-failure", "panic %s: %s in %s, at: %s" % (what, msg, where, head.split(" after [")[0][:300]),
+                 finding_key="panic:" + where, failing_input_found=True,
+                 detail={"case": {"id": "%s-panic-%d-%d" % (ident, seed, i), "seed": seed,
+                                  "desc": {"kind": "panic (recovered in a harness goroutine; the child ended at once)", "seed": seed,
+                                           "operations_before": journal, "panic": p}}})
+    for i, m in enumerate((child.get("malformed") or [])[:3]):
+        ctx.fail("property-failure", "in-flight query without a well-formed response: " + m[:600], finding_key="malformed", failing_input_found=True,
+                 detail={"case": {"id": "%s-malformed-%d-%d" % (ident, seed, i), "seed": seed, "desc": {"kind": "malformed", "seed": seed, "what": m,
+                                                                                                    "all": child.get("malformed")}}})
+
+
+def _hostile_search(ctx, outdir, seed, out):
+    """TestVerifC05Hostile, child 'hostile' (harness/dnsforward/zz_verif_C05hostile_test.go): hostile payload
+    pools per admin operation through the real handlers, the probe names after every request, every
+    operation with a deadline.  A stall is a failure only when a REPLAY of the journal in a fresh process
+    stalls in the same operation (stalls_confirmed); candidates that do not reproduce are counted."""
+    rp = os.path.join(outdir, "c05_hostile.json")
+    if not os.path.exists(rp):
+        ctx.fail("harness", "C05 hostile-data search left no report (c05_hostile.json)", detail=out[-3000:])
+        return {"ran": False}
+    rep = json.load(open(rp))
+    child = rep.get("child") or {}
+    res = {"ran": True, "child_exit": rep.get("child_exit"), "child_completed": rep.get("child_completed"), "millis": rep.get("millis"),
+           "stall_candidates": len(child.get("stall_candidates") or []), "stalls_confirmed_by_replay": len(rep.get("stalls_confirmed") or []),
+           "stall_candidates_not_reproduced_discarded": rep.get("stall_candidates_not_reproduced_discarded")}
+    res.update({k: child.get(k) for k in ("scenarios", "scenarios_by_pool", "admin_ops", "admin_ops_accepted", "queries", "concurrent_phase_operations",
+                                          "queries_upstream_exchange_failed_not_judged")})
+    _child_common(ctx, rep, child, seed, "hostile", "with hostile admin data")
+    for i, cs in enumerate(rep.get("stalls_confirmed") or []):
+        spin = _first_repo_fn(cs.get("goroutines_in_replay") or cs.get("goroutines") or "")
+        jr = cs.get("admin_journal") or []
+        ctx.fail("property-failure", "stall, reproduced by a sequential replay on a fresh server: %s has no result after the deadline (scenario %s); admin requests before it: %s"
+                 % (cs.get("stalled_in_replay") or cs.get("operation"), cs.get("scenario"), " ; ".join(jr[-4:]) or "none"),
+                 finding_key="stall:" + (cs.get("scenario") or "?").split("/")[0], failing_input_found=True,
+                 detail={"case": {"id": "hostile-stall-%d-%d" % (seed, i), "seed": seed,
+                                  "desc": {"kind": "stall (request path does not terminate for this configuration; the goroutine keeps its locks)",
+                                           "seed": seed, "operation": cs.get("operation"), "scenario": cs.get("scenario"),
+                                           "admin_journal": jr, "journal_is": cs.get("journal_is"), "first_repo_frame": spin,
+                                           "goroutines": cs.get("goroutines"), "goroutines_in_replay": cs.get("goroutines_in_replay")}}})
+    if rep.get("timed_out"):
+        ctx.fail("property-failure", "stall: the hostile-data child did not finish within its budget although every operation has a deadline; goroutine dump in the replay",
+                 finding_key="stall", failing_input_found=True,
+                 detail={"case": {"id": "hostile-timeout-%d" % seed, "seed": seed, "desc": {"kind": "stall", "operations_before": rep.get("journal_tail"), "goroutines": rep.get("trace")}}})
+    elif rep.get("crashed") and not (child.get("panics") or []):
+        _child_died(ctx, rep, seed, "with hostile admin data", "hostile")
+    return res
+
+
+def _deps_search(ctx, outdir, seed, out):
+    """TestVerifC05Hostile, child 'deps' (harness/dnsforward/zz_verif_C05deps_test.go): filter lists behind a
+    list server with scripted outcomes per request, refresh through the real handler, the real updatesLoop
+    and its timer arm, concurrent queries.  failures = swallowed panic of a background worker (log marker),
+    worker gone (goroutine dump), asynchronous rebuild without effect."""
+    rp = os.path.join(outdir, "c05_deps.json")
+    if not os.path.exists(rp):
+        ctx.fail("harness", "C05 dependency-failure search left no report (c05_deps.json)", detail=out[-3000:])
+        return {"ran": False}
+    rep = json.load(open(rp))
+    child = rep.get("child") or {}
+    res = {"ran": True, "child_exit": rep.get("child_exit"), "child_completed": rep.get("child_completed"), "millis": rep.get("millis"),
+           "stall_candidates_not_reproduced_discarded": rep.get("stall_candidates_not_reproduced_discarded")}
+    res.update({k: child.get(k) for k in ("refresh_passes", "passes_with_some_but_not_all_lists_failing", "periodic_pass_of_the_real_updates_loop_seen",
+                                          "list_server_requests", "outcomes_scripted", "worker_checks", "rebuild_waits_that_hit_the_cap_once_not_judged",
+                                          "queries", "admin_ops")})
+    _child_common(ctx, rep, child, seed, "deps", "while filter lists fail to download")
+    journal = rep.get("journal_tail") or []
+    for i, f in enumerate(child.get("failures") or []):
+        kind = ("worker-panic" if "panicked" in f else "worker-gone" if "no longer exists" in f else "rebuild-without-effect")
+        ctx.fail("property-failure", "background worker under partial failure of the list downloads: " + f[:900],
+                 finding_key="worker:" + kind, failing_input_found=True,
+                 detail={"case": {"id": "deps-%s-%d-%d" % (kind, seed, i), "seed": seed,
+                                  "desc": {"kind": kind, "seed": seed, "what": f, "operations_before": journal}}})
+    if child.get("stalled_in") and rep.get("stall_reproduced_by_a_second_run"):
+        ctx.fail("property-failure", "stall while filter lists fail to download, reproduced by a second run: %s has no result after the deadline" % child["stalled_in"],
+                 finding_key="stall:deps", failing_input_found=True,
+                 detail={"case": {"id": "deps-stall-%d" % seed, "seed": seed,
+                                  "desc": {"kind": "stall", "operation": child["stalled_in"], "operations_before": journal, "goroutines": child.get("goroutines")}}})
+    elif rep.get("timed_out"):
+        ctx.fail("property-failure", "stall: the dependency-failure child did not finish within its budget; goroutine dump in the replay",
+                 finding_key="stall", failing_input_found=True,
+                 detail={"case": {"id": "deps-timeout-%d" % seed, "seed": seed, "desc": {"kind": "stall", "operations_before": journal, "goroutines": rep.get("trace")}}})
+    elif rep.get("crashed") and not (child.get("panics") or []):
+        _child_died(ctx, rep, seed, "while filter lists fail to download", "deps")
     return res
 
 
@@ -568,7 +684,9 @@ def extra(ctx):
             if any(x.get("race_detector") for x in stress) else "n/a (quick tier: no race detector)"),
         "evaluations": sum((x.get("queries") or 0) + (x.get("admin_ops") or 0)
                            + sum((x.get("crash_search") or {}).get(k) or 0 for k in ("queries", "admin_ops", "client_edit_steps"))
-                           + sum((x.get("lease_answers") or {}).get(k) or 0 for k in ("queries", "admin_ops")) for x in stress),
+                           + sum((x.get("lease_answers") or {}).get(k) or 0 for k in ("queries", "admin_ops"))
+                           + sum((x.get("hostile_admin_data") or {}).get(k) or 0 for k in ("queries", "admin_ops"))
+                           + sum((x.get("dependency_failures") or {}).get(k) or 0 for k in ("queries", "admin_ops", "refresh_passes")) for x in stress),
         "samples": [{"root": a["root"], "fn": a["fn"], "field": a["field"], "write": a["write"], "held": a["held"], "pos": a["pos"]}
                     for a in accesses[:: max(1, len(accesses) // 5)][:5]],
     })
